@@ -16,7 +16,9 @@ VARIABLES l, tally
 vars == <<l, tally>>
 Obs == ndJsonDeserialize(ObsFile)
 
-Same(e, i) == e.variants[i].ok /\ e.variants[1].ok /\ e.variants[i].key = e.variants[1].key
+\* (a schema the generator refuses is refused in every variant: that is deterministic too)
+Same(e, i) == /\ e.variants[i].ok = e.variants[1].ok
+              /\ e.variants[i].ok => e.variants[i].key = e.variants[1].key
 Classify(e, i) == IF Same(e, i) THEN "ok"
                   ELSE IF e.variants[i].dev # "" /\ e.variants[i].dev \in Devs THEN "known" ELSE "violation"
 Report(n, e, i, c) ==
